@@ -859,9 +859,9 @@ class Exec(ExprMixin, CallMixin):
                         # ... unless the receiver's class is evident from the class tables (self, self.<field>, a typed local)
                         rc = self._static_class_of(n.func.value)
                         if rc is not None:
-                            exact = [cc for cc in cts if cc.cls == rc]
-                            if exact:
-                                cts = exact
+                            # the receiver's class is known: only that class's contract can apply (a call the engine has no contract for
+                            # is either resolved through the dispatch table below or leaves the subset when it is executed)
+                            cts = [cc for cc in cts if cc.cls == rc or (cc.cls in self.reg.classes and rc in self.reg.classes and self.reg.is_subclass(rc, cc.cls))]
                     elif isinstance(n.func, ast.Name) and n.func.id in self.reg.contracts:
                         cts.append(self.reg.contracts[n.func.id])
                     # calls resolved through the dispatch table
@@ -929,6 +929,8 @@ class Exec(ExprMixin, CallMixin):
             ty = self.cur_contract.locals_.get(e.id) or self.cur_contract.params.get(e.id)
             if ty is not None:
                 return ty
+            if e.id in self.reg.opaque_names:
+                return sorts.parse_ty(self.reg.opaque_names[e.id])
             # a loop variable: element type of what it iterates over
             for n in ast.walk(self.cur_finfo.node):
                 if isinstance(n, (ast.For, ast.AsyncFor, ast.comprehension)):
